@@ -244,6 +244,21 @@ def ctor_cases():
                             return WormGear(name='g', n_starts=1, inertia_moment=J1, helix_angle=Angle(deg / f, u), pressure_angle=Angle(alpha, 'deg'))
                         return WormWheel(name='g', n_teeth=30, inertia_moment=J1, helix_angle=Angle(deg / f, u), pressure_angle=Angle(alpha, 'deg'))
                     out.append((f'{cls}.helix_angle={deg} deg in {u} @alpha={alpha}', mk2, exp))
+    # the same limits with the pressure angle itself written in another unit (converted by gearpy, or divided by the SI factor)
+    for alpha, lim in ((14.5, 16.0), (20.0, 25.0), (25.0, 35.0), (30.0, 45.0)):
+        for cls in ('WormGear', 'WormWheel'):
+            for u in si.UNITS['Angle']:
+                if u == 'deg':
+                    continue
+                f = si.factor('Angle', u) / si.factor('Angle', 'deg')
+                for how in ('to', 'div'):
+                    for v, exp in ((lim - 1, 'ok'), (lim, 'ok'), (lim + 1, 'ValueError'), (lim + 8, 'ValueError')):
+                        def mk4(cls=cls, v=v, alpha=alpha, u=u, f=f, how=how):
+                            pa = Angle(alpha, 'deg').to(u) if how == 'to' else Angle(alpha / f, u)
+                            if cls == 'WormGear':
+                                return WormGear(name='g', n_starts=1, inertia_moment=J1, helix_angle=Angle(v, 'deg'), pressure_angle=pa)
+                            return WormWheel(name='g', n_teeth=30, inertia_moment=J1, helix_angle=Angle(v, 'deg'), pressure_angle=pa)
+                        out.append((f'{cls}.helix_angle={v} deg @alpha={alpha} deg written in {u} ({how})', mk4, exp))
     # duty cycle
     for v, exp in ((1, 'ok'), (-1, 'ok'), (0.3, 'ok'), (math.nextafter(1.0, 2), 'ValueError'), (math.nextafter(-1.0, -2), 'ValueError'),
                    (1.5, 'ValueError'), (-7, 'ValueError'), (float('nan'), 'ValueError')):
